@@ -1,6 +1,6 @@
 (* C20 - Filesystem plugin and memoryview stream preserve bytes exactly.
    Property theorems only; each closed by [exact] of a lemma from proofs/FsStreamProofs.v. *)
-From TS Require Import model.Base model.FsStream proofs.FsStreamProofs.
+From TS Require Import model.Base model.FsStream proofs.FsStreamProofs gen.StreamGen model.StreamGenObs proofs.StreamInst.
 From Coq Require Import Permutation.
 
 (* A ranged read [a, b) of a file holding [d] returns exactly bytes a..b-1: right length, right content,
@@ -48,3 +48,45 @@ Example C20_example_stream :
   run_mvs [1; 2; 3; 4] [SRead (Some 3); SSeek (-2) 2; STell; SRead None; SSeek 9 0; SRead (Some 1); SSeek 0 7; SClose; STell]
   = [OBytes [1; 2; 3]; OInt 2; OInt 2; OBytes [3; 4]; OInt 9; OBytes []; OValueError; ONone; OValueError].
 Proof. vm_compute. reflexivity. Qed.
+
+(* ---- the same statements about the code as it is now: gen/StreamGen.v is regenerated on every run from
+   memoryview_stream.py and storage_plugins/fs.py by translator/gen_stream.py ---- *)
+
+(* The statement-by-statement translation of MemoryviewStream.read/seek/tell (with io.IOBase.close) is
+   observationally equal to the in-memory byte stream for every buffer and every operation sequence. *)
+Theorem C20_generated_stream_refines_bytesio : forall (d : bytes) (ops : list sop),
+  run_gen d ops = run_bio d ops.
+Proof. exact generated_stream_refines. Qed.
+Print Assumptions C20_generated_stream_refines_bytesio.
+
+(* The translated file program of FSStoragePlugin.read (open 'rb'; whole read, or seek(a); read(b - a)) over a
+   POSIX file handle returns the whole content, resp. exactly bytes a..b-1, for every content and range. *)
+Theorem C20_generated_read_exact : forall (d : bytes) (a b : Z),
+  g_fs_read d None = d /\
+  (0 <= a <= b -> b <= zlen d ->
+   zlen (g_fs_read d (Some (a, b))) = b - a /\
+   forall i dflt, 0 <= i < b - a ->
+     nth (Z.to_nat i) (g_fs_read d (Some (a, b))) dflt = nth (Z.to_nat (a + i)) d dflt).
+Proof.
+  intros d a b. split; [exact (g_fs_read_whole d)|].
+  intros Hab Hb. rewrite (g_fs_read_range d a b Hab). split.
+  - exact (file_read_range_length d a b Hab Hb).
+  - intros i dflt Hi. exact (file_read_range_nth d a b i dflt Hab Hi).
+Qed.
+Print Assumptions C20_generated_read_exact.
+
+(* The translated file program of FSStoragePlugin.write (truncating open; one write of the whole buffer) leaves
+   exactly the buffer as the file's content whatever the path held before, and reading it back returns it. *)
+Theorem C20_generated_write_then_read : forall (old : option bytes) (buf : bytes),
+  g_fs_write old buf = buf /\ g_fs_read (g_fs_write old buf) None = buf.
+Proof.
+  intros old buf. rewrite (g_fs_write_content old buf). split; [reflexivity | exact (g_fs_read_whole buf)].
+Qed.
+Print Assumptions C20_generated_write_then_read.
+
+Example C20_example_generated :
+  run_gen [1; 2; 3; 4] [SRead (Some 3); SSeek (-2) 2; STell; SRead None; SSeek 9 0; SRead (Some 1); SSeek 0 7; SClose; STell]
+  = [OBytes [1; 2; 3]; OInt 2; OInt 2; OBytes [3; 4]; OInt 9; OBytes []; OValueError; ONone; OValueError]
+  /\ g_fs_read [10; 11; 12; 13; 14] (Some (1, 4)) = [11; 12; 13]
+  /\ g_fs_write (Some [9; 9; 9; 9]) [5; 6] = [5; 6].
+Proof. vm_compute. repeat split. Qed.
